@@ -415,6 +415,20 @@ def _xmodel(chk, cat, thorough):
     chk.extra_cov.update({"xmodel_tuples": n, "interpreter_steps": steps})
     smod = chk.repo.mod("ops.signature")
     bad = [d for d in diffs if d[3][0] in ("amb", "int")]
+    # the source accepts what the model rejects: a property clause decides whether that is a violation
+    leaks = []
+    for d in diffs:
+        if d[3][0] == "ok" and d[2][0] == "none":
+            op = cat.ops[d[0]]
+            for i, targ in enumerate(d[1]):
+                if not targ.startswith("const ") and all(len(s_.types) > i and s_.types[i].cls == "Const" for s_ in op.signatures if len(s_.types) > i or not s_.is_vararg) and any(len(s_.types) > i for s_ in op.signatures):
+                    leaks.append((d, i))
+    if leaks:
+        d, i = leaks[0]
+        chk.fail("CONST", smod, smod.func("SignatureTrie.Node.all_matches"), "interpreted matcher: Const parameters reject column arguments",
+                 f"the source of ops/signature.py, interpreted, accepts a non-constant argument for a parameter that every overload declares Const: "
+                 f"ops.{d[0]}{d[1]} (argument {i}) -> {d[3][1]}; {len(leaks)} such tuples")  # fmt: skip
+        diffs = [x for x in diffs if not any(x is l_[0] for l_ in leaks)]
     if bad:
         d = bad[0]
         chk.fail("XMODEL", smod, smod.func("best_signature_match"), "interpreted SignatureTrie.best_match: no internal failure where the model predicts a result",
